@@ -768,7 +768,16 @@ impl<'s, const M: usize> Exec<'s, M> {
     /// C11: "a request of the same layout made next is served without obtaining memory"
     fn follow_up_same_layout(&mut self, layout: Layout, where_: &'static str) {
         self.stats.hit("c11_follow_up");
-        let r = self.call(|b| b.try_alloc_layout(layout).map(|p| p.as_ptr() as usize).map_err(|_| ()));
+        // state-neutral: the follow-up block is given straight back, so that the arena is left
+        // exactly as the failed call left it (a chunk that was opened for the failed value stays
+        // pristine - histories such as "fail in a new chunk, then reset" must stay reachable)
+        let r = self.call(|b| {
+            let p = b.try_alloc_layout(layout);
+            if let Ok(p) = p {
+                unsafe { (&b).deallocate(p, layout) };
+            }
+            p.map(|p| p.as_ptr() as usize).map_err(|_| ())
+        });
         let saved_kind = self.cur_kind;
         let (out, addr) = self.classify(true, r);
         self.post(None);
@@ -786,8 +795,20 @@ impl<'s, const M: usize> Exec<'s, M> {
         }
         self.cur_kind = saved_kind;
         if let Some(a) = addr {
-            if self.on_block(a, layout.size(), layout.align(), Expect::Pat(0xF0110), true) {
-                self.fill_pat(a, layout.size(), 0xF0110);
+            // the follow-up block must itself be a proper block (in bounds, not on a live one)
+            if layout.size() > 0 {
+                let inside = self.chunk_of(a, layout.size()).is_some();
+                let clash = self
+                    .blocks
+                    .range(..a + layout.size())
+                    .next_back()
+                    .map(|(&pa, pb)| pa + pb.size > a)
+                    .unwrap_or(false);
+                if !inside {
+                    self.violate("C01", "outside-held-memory", "follow-up", String::new());
+                } else if clash {
+                    self.violate("C01", "overlap", "follow-up", String::new());
+                }
             }
         }
         self.op_place = None;
